@@ -351,7 +351,7 @@ def sem_new(ex, n, awaited, recv=None):
     return v
 
 
-def user_call(name, pre=None, post=None, on_raise=None, result_ty='any', raises=('Exception',), is_async=True):
+def user_call(name, pre=None, post=None, on_raise=None, result_ty='any', raises=('Exception',), is_async=True, on_timeout=None, sync_havoc=False):
     """Model of a call into user code (handler, wrapped function, predicate): an arbitrary client of the public API.
     It is a suspension point (when async), returns anything of result_ty or raises any of `raises`; ghost effects are
     applied by pre/post/on_raise."""
@@ -360,6 +360,8 @@ def user_call(name, pre=None, post=None, on_raise=None, result_ty='any', raises=
     def run(ex):
         if pre:
             pre(ex)
+        if not is_async and sync_havoc:
+            ex.suspend('user(sync):' + name, cancel=False)   # user code is an arbitrary client of the public API
         if is_async:
             try:
                 ex.suspend('user:' + name)
@@ -381,7 +383,7 @@ def user_call(name, pre=None, post=None, on_raise=None, result_ty='any', raises=
 
     def model(ex, n, awaited, recv=None):
         if is_async and not awaited:
-            return V(PY, py=('coro', 'user:' + name, {'run': run}))
+            return V(PY, py=('coro', 'user:' + name, {'run': run, 'on_timeout': on_timeout}))
         return run(ex)
 
     model.run = run
